@@ -10,6 +10,7 @@ CONSTANTS
   Delay = 2
   Known = {"F14"}
   F1Fixed = FALSE
+  Parties = 3
 VIEW View
 INVARIANTS
   TypeOK
